@@ -11,7 +11,7 @@
           (colour=1 is not modelled: prints "diff <idx> unsupported=colour")
 
    Needs these identifiers in the Extraction command of Extract.v:
-     split_newlines get_opcodes grouped_opcodes pretty_diff_nocolor *)
+     split_newlines get_opcodes grouped_opcodes pretty_diff_nocolor valid_script groups_of_script report_of_script *)
 open Model
 open Util
 
@@ -26,6 +26,38 @@ let groups_s (gs : opcode list list) : str =
   | [] -> "~"
   | _ -> String.concat "/" (List.map (fun g -> String.concat "," (List.map opcode_s g)) gs)
 
+let b01 b = if b then "1" else "0"
+
+(* a context larger than both texts yields ONE group holding the whole script - except for two identical texts, whose
+   single Equal opcode GetGroupedOpCodes drops: the script is then that opcode *)
+let script_of (al : bytes list) (bl : bytes list) (gs : opcode list list) : opcode list =
+  match gs with
+  | [] when al = bl ->
+    let n = nat_of_int (List.length al) in
+    [{ op_tag = Equal; i1 = nat_of_int 0; i2 = n; j1 = nat_of_int 0; j2 = n }]
+  | _ -> List.concat gs
+
+let tag_of_letter = function
+  | "e" -> Equal | "i" -> Insert | "d" -> Delete | "r" -> Replace
+  | s -> failwith ("opcode tag " ^ s)
+
+let parse_groups (s : str) : opcode list list =
+  if s = "~" || s = "" then []
+  else
+    List.map (fun g ->
+      List.map (fun c ->
+        match String.split_on_char ':' c with
+        | [t; a1; a2; b1; b2] ->
+          { op_tag = tag_of_letter t; i1 = nat_of_int (int_of_string a1); i2 = nat_of_int (int_of_string a2);
+            j1 = nat_of_int (int_of_string b1); j2 = nat_of_int (int_of_string b2) }
+        | _ -> failwith ("opcode " ^ c))
+        (String.split_on_char ',' g))
+      (String.split_on_char '/' s)
+
+(* The script the IMPLEMENTATION chose (iall, obtained with a context larger than both texts: one group holding every opcode)
+   is checked, not re-derived: valid = it passes [valid_script] (Properties/C13.v: C13_script_* hold for every such script);
+   hunks = the implementation's hunks are [groups_of_script] of its script. The model's own matcher's choice is printed too
+   (all / groups): a difference there is presentation drift (another valid script), not a broken tie. *)
 let () =
   register "opcodes" (fun idx f ->
     let al = split_newlines (unhex (get f "a")) in
@@ -33,18 +65,36 @@ let () =
     let na = List.length al and nb = List.length bl in
     let all = grouped_opcodes (nat_of_int (na + nb + 1)) al bl in
     let groups = grouped_opcodes (nat_of_int 3) al bl in
-    Printf.printf "opcodes %d na=%d nb=%d all=%s groups=%s\n" idx na nb (groups_s all) (groups_s groups));
+    let v, h =
+      match List.assoc_opt "iall" f, List.assoc_opt "igroups" f with
+      | Some ia, Some ig ->
+        (try
+           let script = script_of al bl (parse_groups ia) in
+           (b01 (valid_script al bl script), b01 (groups_of_script script = parse_groups ig))
+         with Failure _ -> ("0", "0"))
+      | _ -> ("*", "*") in
+    Printf.printf "opcodes %d na=%d nb=%d valid=%s hunks=%s all=%s groups=%s\n" idx na nb v h (groups_s all) (groups_s groups));
 
   register "diff" (fun idx f ->
     if get_or f "colour" "0" <> "0" then begin
       (* colours on: only the pass/fail decision is modelled ("*" = not compared) *)
       let a = unhex (get f "a") and b = unhex (get f "b") in
-      Printf.printf "diff %d empty=%s report=*\n" idx (if diff_empty a b then "1" else "0")
+      Printf.printf "diff %d empty=%s valid=* report=* own=*\n" idx (if diff_empty a b then "1" else "0")
     end else begin
       let a = unhex (get f "a") and b = unhex (get f "b") in
       let name = unhex (get f "name") in
       let line = nat_of_int (int_of_string (get f "line")) in
-      let report = pretty_diff_nocolor a b name line in
-      Printf.printf "diff %d empty=%s report=%s\n" idx
-        (match report with [] -> "1" | _ -> "0") (hex report)
+      let own = pretty_diff_nocolor a b name line in
+      (* the report printed from the implementation's own script, when it handed one over *)
+      let (valid, report) =
+        match List.assoc_opt "iall" f with
+        | Some ia ->
+          (try
+             let al = split_newlines a and bl = split_newlines b in
+             let script = script_of al bl (parse_groups ia) in
+             (b01 (valid_script al bl script), report_of_script a b script name line)
+           with Failure _ -> ("0", own))
+        | None -> ("*", own) in
+      Printf.printf "diff %d empty=%s valid=%s report=%s own=%s\n" idx
+        (match report with [] -> "1" | _ -> "0") valid (hex report) (hex own)
     end)
